@@ -112,11 +112,18 @@ Definition m_sheet_insertRule_ns := mkMut 3 [1; 2]%nat (flat
 Definition m_sheet_insertRule_ns_pinned := mkMut 503 [1; 2]%nat (flat
   [Guard; Check 2 6; Check 7 3; Check 8 4; Commit 1%nat; Commit 2%nat; Check 9 1]).
 (* insertRule(@import rule object) in a sheet that can fetch: the href is
-   reloaded after the insertion; the imported sheet may be refused (10) *)
+   reloaded after the insertion; repaired: the imported sheet is parsed in
+   logging mode, it cannot refuse any more *)
 Definition m_sheet_insertRule_import := mkMut 4 [1; 2]%nat (flat
+  [Guard; Check 2 6; Check 7 3; Check 8 4; Commit 1%nat]).
+(* pinned: the imported sheet may be refused (10) after the insertion *)
+Definition m_sheet_insertRule_import_pinned := mkMut 504 [1; 2]%nat (flat
   [Guard; Check 2 6; Check 7 3; Check 8 4; Commit 1%nat; Check 10 3]).
-(* insertRule(CSSRuleList): one insertRule per element *)
+(* insertRule(CSSRuleList): one insertRule per element; repaired: the ones
+   inserted so far are deleted again when a later one is refused *)
 Definition m_sheet_insertRule_list := mkMut 5 [1; 2]%nat (fun n =>
+  [Guard; Check 2 6; Save [1; 2]%nat] ++ nested n [Commit 1%nat] ++ []).
+Definition m_sheet_insertRule_list_pinned := mkMut 505 [1; 2]%nat (fun n =>
   [Guard; Check 2 6] ++ nested n [Commit 1%nat]).
 (* deleteRule: 2 index / not in list, 3 namespace in use *)
 Definition m_sheet_deleteRule := mkMut 6 [1; 2]%nat (flat [Guard; Check 2 6; Check 3 1; Commit 1%nat; Commit 2%nat]).
@@ -139,7 +146,8 @@ Definition m_media_cssText_pinned := mkMut 510 [1; 2; 3]%nat (fun n =>
 (* insertRule / add: 2 index, 3-5 text in a temporary sheet, 6 not one rule, 8 kind not allowed here *)
 Definition m_media_insertRule := mkMut 11 [1; 2; 3]%nat (flat
   [Guard; Check 2 6; Check 3 3; Check 4 5; Check 5 4; Check 6 3; Check 8 4; Commit 3%nat]).
-Definition m_media_insertRule_list := mkMut 12 [1; 2; 3]%nat (fun n => [Guard; Check 2 6] ++ nested n [Commit 3%nat]).
+Definition m_media_insertRule_list := mkMut 12 [1; 2; 3]%nat (fun n => [Guard; Check 2 6; Save [3]%nat] ++ nested n [Commit 3%nat] ++ []).
+Definition m_media_insertRule_list_pinned := mkMut 512 [1; 2; 3]%nat (fun n => [Guard; Check 2 6] ++ nested n [Commit 3%nat]).
 Definition m_media_deleteRule := mkMut 13 [1; 2; 3]%nat (flat [Guard; Check 2 6; Commit 3%nat]).
 (* media = text: 2 syntax, 3 no content *)
 Definition m_media_media := mkMut 14 [1; 2; 3]%nat (flat [Guard; Check 2 3; Check 3 3; Commit 1%nat]).
@@ -162,7 +170,8 @@ Definition m_page_selectorText := mkMut 31 [1; 2; 3]%nat (flat [Guard; Check 2 3
 Definition m_page_style := mkMut 32 [1; 2; 3]%nat (flat [Guard; Check 2 3; Commit 2%nat]).
 Definition m_page_insertRule := mkMut 33 [1; 2; 3]%nat (flat
   [Guard; Check 2 6; Check 3 3; Check 4 5; Check 5 4; Check 6 3; Check 8 4; Commit 3%nat]).
-Definition m_page_insertRule_list := mkMut 34 [1; 2; 3]%nat (fun n => [Guard; Check 2 6] ++ nested n [Commit 3%nat]).
+Definition m_page_insertRule_list := mkMut 34 [1; 2; 3]%nat (fun n => [Guard; Check 2 6; Save [3]%nat] ++ nested n [Commit 3%nat] ++ []).
+Definition m_page_insertRule_list_pinned := mkMut 534 [1; 2; 3]%nat (fun n => [Guard; Check 2 6] ++ nested n [Commit 3%nat]).
 Definition m_page_deleteRule := mkMut 35 [1; 2; 3]%nat (flat [Guard; Check 2 6; Commit 3%nat]).
 
 (* ================= CSSImportRule: 1 href, 2 media, 3 name, 4 imported sheet (not observed) ================= *)
@@ -170,15 +179,19 @@ Definition m_page_deleteRule := mkMut 35 [1; 2; 3]%nat (flat [Guard; Check 2 6; 
 Definition m_import_cssText := mkMut 40 [1; 2; 3]%nat (flat
   [Guard; Check 2 2; Check 3 3; Check 4 3; Commit 1%nat; Commit 3%nat; Commit 2%nat; Commit 1%nat; Commit 4%nat]).
 (* with a parent sheet that fetches: the imported sheet is parsed after the
-   commits and may be refused (10) *)
+   commits; repaired: in logging mode, it cannot refuse any more *)
 Definition m_import_cssText_fetch := mkMut 41 [1; 2; 3]%nat (flat
+  [Guard; Check 2 2; Check 3 3; Check 4 3; Commit 1%nat; Commit 3%nat; Commit 2%nat; Commit 1%nat; Commit 4%nat]).
+(* pinned: it may be refused (10) *)
+Definition m_import_cssText_fetch_pinned := mkMut 541 [1; 2; 3]%nat (flat
   [Guard; Check 2 2; Check 3 3; Check 4 3; Commit 1%nat; Commit 3%nat; Commit 2%nat; Commit 1%nat; Check 10 3; Commit 4%nat]).
 Definition m_import_media := mkMut 42 [1; 2; 3]%nat (flat [Guard; Check 2 3; Check 3 3; Commit 2%nat]).
 Definition m_import_name := mkMut 43 [1; 2; 3]%nat (flat [Guard; Check 2 3; Commit 3%nat]).
 Definition m_import_name_pinned := mkMut 543 [1; 2; 3]%nat (flat [Check 2 3; Commit 3%nat]).
 (* href = x has no read-only guard (known finding) *)
 Definition m_import_href := mkMut 44 [1; 2; 3]%nat (flat [Commit 1%nat; Commit 4%nat]).
-Definition m_import_href_fetch := mkMut 45 [1; 2; 3]%nat (flat [Commit 1%nat; Check 10 3; Commit 4%nat]).
+Definition m_import_href_fetch := mkMut 45 [1; 2; 3]%nat (flat [Commit 1%nat; Commit 4%nat]).
+Definition m_import_href_fetch_pinned := mkMut 545 [1; 2; 3]%nat (flat [Commit 1%nat; Check 10 3; Commit 4%nat]).
 
 (* ================= CSSNamespaceRule: 1 prefix, 2 namespace URI ================= *)
 (* for a rule whose URI is set (the URI can then only be "set" to itself):
@@ -260,11 +273,12 @@ Definition m_vardecl_remove_pinned := mkMut 622 [1]%nat (flat [Commit 9%nat; Com
 (* ---- the catalogue ---- *)
 (* every rejection point before every unprotected observable commit, for every n *)
 Definition atomic_mutators : list mutator :=
-  [m_sheet_cssText; m_sheet_insertRule; m_sheet_insertRule_ns; m_sheet_deleteRule; m_ns_setitem_declared; m_ns_delitem;
-   m_media_cssText; m_media_insertRule; m_media_deleteRule; m_media_media; m_media_name;
+  [m_sheet_cssText; m_sheet_insertRule; m_sheet_insertRule_ns; m_sheet_insertRule_import; m_sheet_insertRule_list;
+   m_sheet_deleteRule; m_ns_setitem_declared; m_ns_delitem;
+   m_media_cssText; m_media_insertRule; m_media_insertRule_list; m_media_deleteRule; m_media_media; m_media_name;
    m_style_cssText; m_style_selectorText; m_style_style;
-   m_page_cssText; m_page_selectorText; m_page_style; m_page_insertRule; m_page_deleteRule;
-   m_import_cssText; m_import_media; m_import_name; m_import_href;
+   m_page_cssText; m_page_selectorText; m_page_style; m_page_insertRule; m_page_insertRule_list; m_page_deleteRule;
+   m_import_cssText; m_import_cssText_fetch; m_import_media; m_import_name; m_import_href; m_import_href_fetch;
    m_namespace_cssText; m_namespace_prefix; m_namespace_uri;
    m_charset_cssText; m_charset_encoding; m_fontface_cssText; m_fontface_style; m_unknown_cssText; m_comment_cssText;
    m_variables_cssText; m_variables_variables;
@@ -281,9 +295,8 @@ Definition atomic_mutators : list mutator :=
 Definition non_atomic_mutators : list mutator :=
   [m_sheet_cssText_pinned; m_media_cssText_pinned; m_namespace_cssText_pinned; m_margin_cssText_pinned;
    m_prop_cssText_pinned; m_prop_priority_pinned; m_ml_mediaText_pinned; m_sheet_insertRule_ns_pinned;
-   (* not repaired: known findings *)
-   m_sheet_insertRule_import; m_sheet_insertRule_list; m_media_insertRule_list;
-   m_page_insertRule_list; m_import_cssText_fetch; m_import_href_fetch].
+   m_sheet_insertRule_import_pinned; m_sheet_insertRule_list_pinned; m_media_insertRule_list_pinned;
+   m_page_insertRule_list_pinned; m_import_cssText_fetch_pinned; m_import_href_fetch_pinned].
 
 (* mutators of classes with a read-only flag whose first phase is the guard *)
 Definition guarded_mutators : list mutator :=
